@@ -12,8 +12,19 @@ import (
 	"path/filepath"
 	"sort"
 	"strconv"
+	"io"
 	"sync"
+
+	"github.com/semihalev/zlog/v2"
 )
+
+// Quiet routes the code under test's logging to io.Discard.
+func Quiet() {
+	logger := zlog.NewStructured()
+	logger.SetWriter(zlog.NewTerminalWriter(io.Discard))
+	zlog.SetDefault(logger)
+}
+
 
 type unit struct {
 	Evaluations int64            `json:"evaluations"`
